@@ -3,7 +3,7 @@
     lengths), the distance matrix as the CODE computes it ([dist_matrix], the
     transcription of [_get_distances]) and as the SPECIFICATION defines it
     ([pathlen_matrix]), and the tip names.  No proofs here. *)
-From CG3 Require Import Lib.PyZ Lib.Val Lib.Rose Model.Tree Model.TreeMid Model.TreeJson Model.TreeDist Spec.TreeSpec Spec.TreeTopoSpec.
+From CG3 Require Import Lib.PyZ Lib.Val Lib.Rose Model.Tree Model.TreeMid Model.TreeJson Model.TreeDist Model.TreeNames Spec.TreeSpec Spec.TreeTopoSpec.
 
 Inductive op : Type :=
 | ORootedAt (nm : name)
@@ -21,7 +21,8 @@ Inductive op : Type :=
 | ODist
 | OMidpoint (fx : bool)
 | OBifurcating
-| OTreeDistRF (other : tree).
+| OTreeDistRF (other : tree)
+| OTreeDistSelf.
 
 Fixpoint vtree (t : tree) : val :=
   match t with
@@ -57,15 +58,21 @@ Definition E_OutsideModel : Z := 99.
 Definition guarded (t : tree) (v : val) : val := if names_ok t then v else VE E_OutsideModel.
 
 (** one step: tree-valued operations *)
+Definition named (f : tree -> tree) (r : res tree) : res tree :=
+  match r with Ok x => Ok (f x) | Err e => Err e end.
+
+(** structure and lengths from Model/Tree.v, node names from Model/TreeNames.v (the TreeBuilder replay), so trees
+    with unnamed, repeated or generated-looking names (edge.0, mouse.2) are inside the model *)
 Definition step (t : tree) (o : op) : res tree :=
-  let g (r : res tree) : res tree := if names_ok t then r else Err E_OutsideModel in
   match o with
-  | ORootedAt nm => g (rooted_at t nm)
-  | ORootedWithTip nm => g (rooted_with_tip t nm)
-  | OUnrooted fx => g (Ok (unrooted_v fx t))
-  | OUnrootedDeepcopy => g (match reroot_go t [] None with Some r => Ok r | None => Err E_Other end)
-  | OSubTree fx sel im kr tipsonly => g (get_sub_tree_v fx t sel im kr tipsonly)
-  | OSorted order => g (Ok (tree_sorted t order))
+  | ORootedAt nm => named name_rerooted (rooted_at t nm)
+  | ORootedWithTip nm => named name_rerooted (rooted_with_tip t nm)
+  | OUnrooted fx => Ok (name_unrooted (unrooted_v fx t))
+  | OUnrootedDeepcopy => named name_rerooted (match reroot_go t [] None with Some r => Ok r | None => Err E_Other end)
+  | OSubTree fx sel im kr tipsonly => get_sub_tree_named fx t sel im kr tipsonly
+  | OSorted order =>
+      (* equal scores (repeated tip names) fall back on comparing node objects: outside the model *)
+      if nodup_names (tips t) then Ok (name_sorted (tree_sorted t order)) else Err E_OutsideModel
   | OPrune => Ok (prune t)
   | OCopy => Ok t
   | ONewick _ _ _ => Ok t
@@ -79,6 +86,7 @@ Definition step (t : tree) (o : op) : res tree :=
       else Err E_OutsideModel
   | OBifurcating => Ok (bifurcating t)
   | OTreeDistRF _ => Ok t
+  | OTreeDistSelf => Ok t
   end.
 
 Definition obs_resZ (r : res Z) : val := match r with Ok z => VZ z | Err e => VE e end.
@@ -87,6 +95,8 @@ Fixpoint run_ops (t : tree) (ops : list op) : val :=
   match ops with
   | [] => obs_tree t
   | [ONewick esc with_len semicolon] => VS (get_newick esc with_len semicolon t)
+  | [OTreeDistSelf] =>
+      VL [obs_resZ (tree_distance_rf t t); obs_resZ (tree_distance_rf t t); obs_resZ (tree_distance_rf t t)]
   | [OTreeDistRF other] =>
       (* tree_distance(other, "rf") both ways and against itself *)
       VL [obs_resZ (tree_distance_rf t other); obs_resZ (tree_distance_rf other t); obs_resZ (tree_distance_rf t t)]
